@@ -104,7 +104,7 @@ pub fn stopwatch_borrowed_guards() {
     assert!(closed(&sw) == m.total, "stopwatch reports the total of kept spans");
 }
 
-// @check C18 quick timeout=1800 mem=14
+// @check C18 thorough timeout=3600 mem=30
 // @encodes metrique::timers::{Stopwatch::start_owned, OwnedTimerGuard::{stop, discard, overwrite, drop}, MaybeGuardedDuration::{shared_cloned, take}, SharedDuration}, Stopwatch::start after owned guards, clear
 // @bounds two concurrently live owned guards started at different symbolic times, ended in a symbolic order with symbolic endings (drop/stop/discard/overwrite), then one borrowed episode; symbolic clear while an owned guard is live
 // @oracle reported duration == reference model: spans add in completion order, overwrite replaces what was accumulated so far, discard contributes nothing, clear forgets what was accumulated before it
@@ -154,6 +154,41 @@ pub fn stopwatch_owned_guards_overlap() {
     assert!(closed(&sw) == m.total, "overlapping owned guards add up in completion order");
     borrowed_episode(&mut sw, &mut m);
     assert!(closed(&sw) == m.total, "a borrowed guard after owned ones keeps accumulating");
+}
+
+// @check C18 quick timeout=1800 mem=20
+// @encodes metrique::timers::{Stopwatch::start_owned, clear, OwnedTimerGuard::{stop, discard, overwrite, drop}, MaybeGuardedDuration::{shared_cloned, take}, SharedDuration, <&Stopwatch as CloseValue>::close}
+// @bounds one owned guard; a solver-chosen clear while it is live; clock advances before and after; the guard ends by drop / stop / discard / overwrite (solver-chosen)
+// @oracle an owned guard that is live across a clear still reports into the stopwatch: closed value == its full span for drop/stop/overwrite, None for discard; before the guard ends the stopwatch reports None (cleared) or nothing yet
+#[kani::proof]
+#[kani::unwind(3)]
+pub fn stopwatch_owned_guard_across_clear() {
+    let mut sw = Stopwatch::new_from_timesource(TimeSource::custom(Manual));
+    let t0 = now_ns();
+    let g = sw.start_owned();
+    advance();
+    let cleared: bool = kani::any();
+    if cleared {
+        sw.clear();
+    }
+    assert!(closed(&sw).is_none(), "nothing completed yet");
+    advance();
+    let span = now_ns() - t0;
+    let how: u8 = kani::any();
+    kani::assume(how < 4);
+    kani::cover!(cleared && how == 0, "guard dropped after a clear");
+    kani::cover!(!cleared && how == 3, "overwrite without a clear");
+    match how {
+        0 => drop(g),
+        1 => {
+            let d = g.stop();
+            assert!(ticks_of(d) == span);
+        }
+        2 => g.discard(),
+        _ => g.overwrite(),
+    }
+    let want = if how == 2 { None } else { Some(span) };
+    assert!(closed(&sw) == want, "the span of a guard that outlives a clear is still reported");
 }
 
 // @check C18 quick timeout=900 mem=14
